@@ -661,15 +661,32 @@ class LinalgModel:
         args = [_z(v) for v in A.flat]
         M = _np.empty((n, n), dtype=object)
         inbad = bor(*[_bad(v) for v in A.flat])
+        # the inverse of a symmetric matrix is symmetric: if A is symmetric as a polynomial
+        # identity, M[j][i] is *the same term* as M[i][j]
+        symm = False
+        try:
+            from .normal import Normaliser
+
+            Nn = Normaliser()
+            symm = all(Nn.pkey(Nn.poly(_z(A[i, j]))) == Nn.pkey(Nn.poly(_z(A[j, i]))) for i in range(n) for j in range(i))
+        except Exception:
+            symm = False
+        if symm:
+            args = [_z(A[min(i, j), max(i, j)]) for i in range(n) for j in range(n)]
         for i in range(n):
             for j in range(n):
-                M[i, j] = SV(self._uf("inv%d_%d%d" % (n, i, j), n * n)(*args), inbad)
+                ii, jj = (min(i, j), max(i, j)) if symm else (i, j)
+                M[i, j] = SV(self._uf("inv%d_%d%d" % (n, ii, jj), n * n)(*args), inbad)
         P = _plain(A) @ M
         Q = M @ _plain(A)
         for i in range(n):
             for j in range(n):
                 self.axioms.append(_z(P[i, j]) == (1 if i == j else 0))
                 self.axioms.append(_z(Q[i, j]) == (1 if i == j else 0))
+        # the inverse of a symmetric matrix is symmetric
+        sym = [_z(A[i, j]) == _z(A[j, i]) for i in range(n) for j in range(i)]
+        if sym:
+            self.axioms.append(z3.Implies(z3.And(*sym), z3.And(*[M[i, j].z == M[j, i].z for i in range(n) for j in range(i)])))
         return M.view(SArr)
 
     def _chol_uf(self, A, lower):
